@@ -456,10 +456,17 @@ def b_odict(tier, seed):
                     break
             if bad is None:
                 # copy / deepcopy / pickle round trips
-                for nm, c in (("copy", copy.copy(d)), ("copy()", d.copy()), ("deepcopy", copy.deepcopy(d)), ("pickle", pickle.loads(pickle.dumps(d)))):
+                for nm, mk in (("copy", lambda: copy.copy(d)), ("copy()", lambda: d.copy()), ("deepcopy", lambda: copy.deepcopy(d)),
+                               ("pickle", lambda: pickle.loads(pickle.dumps(d)))):
+                    try:
+                        c = mk()
+                    except Exception as e:
+                        bad = f"{nm} raised {type(e).__name__}: {e}"
+                        break
                     if type(c) is not CIOD or list(c.items()) != list(d.items()) or c.default_factory is not d.default_factory:
                         bad = f"{nm} differs"
                         break
+            if bad is None:
                 dc = copy.deepcopy(d)
                 for kk, vv in dc.items():
                     if isinstance(vv, (list, dict)) and vv is d[kk]:
@@ -471,7 +478,7 @@ def b_odict(tier, seed):
                 if "Zz_New" not in c2:
                     bad = "copy lost case-insensitivity"
             if bad:
-                fails.append(dict(key="sequence", factory=bool(factory), seq=repr(seq)[:300], error=bad))
+                fails.append(dict(key=f"sequence-{len(fails)}", factory=bool(factory), seq=repr(seq)[:300], error=bad))
                 if len(fails) > 20:
                     break
     return _rec("seam/case-insensitive-ordered-dict", "all operation sequences of length 2 over 4 keys x 3 value kinds x 10 operations (exhaustive), plus seeded random sequences of length 3..8, with and without a default factory, against the reference model; copy/deepcopy/pickle after each", n, fails)
